@@ -8,8 +8,17 @@ NAMES = ["a", "b", "c", "d", "e"]
 UNKNOWN = 99
 
 
+UNKNOWN_T, UNKNOWN_STATE = 98, 97      # names the model knows as symbols but that are not parameters
+
+
 def pname(i):
+    if i == UNKNOWN_T: return "t"
+    if i == UNKNOWN_STATE: return "x0"
     return NAMES[i] if i < len(NAMES) else "zz%d" % i
+
+
+def unknown(rng):
+    return [UNKNOWN, UNKNOWN_T, UNKNOWN_STATE][int(rng.integers(0, 3))]
 
 
 # ------------------------------------------------------------------ pygom side
@@ -112,7 +121,7 @@ def gen_history(rng, maxlen):
             items = [[int(p), val()] for p in perm]
             if bad:
                 c = rng.random()
-                if c < 0.5: items[int(rng.integers(0, n))][0] = UNKNOWN
+                if c < 0.5: items[int(rng.integers(0, n))][0] = unknown(rng)
                 elif c < 0.8 and n > 1: items = items[:-1]
                 elif n > 1: items[0][0] = items[1][0]
             ops.append(dict(kind="pairs" if rng.random() < 0.8 else "pairs_tuple", items=items))
@@ -122,7 +131,7 @@ def gen_history(rng, maxlen):
             items = [[int(p), val()] for p in sub]
             if bad:
                 pos = int(rng.integers(0, len(items) + 1))
-                items.insert(pos, [UNKNOWN, val()])
+                items.insert(pos, [unknown(rng), val()])
             kind = ["dict_str", "dict_sym", "dict_mixed"][int(rng.integers(0, 3))]
             if kind == "dict_mixed" or True:
                 pass
@@ -146,11 +155,14 @@ def coq_case(h, res):
 
 
 COQ_HEAD = """From Coq Require Import List ZArith Bool.
-From PV Require Import Util Params Gen.ParamsGen.
+From PV Require Import Util Params ParamsAtomic Gen.ParamsGen.
 Import ListNotations. Open Scope Z_scope.
 Definition res_eqb (a b : list Z * bool) := zlist_eqb (fst a) (fst b) && Bool.eqb (snd a) (snd b).
+(* names 97 (a state) and 98 (t) are symbols of the model that are not parameters; 99 is unknown altogether *)
 Definition chk (c : list nat * list op * list (list Z * bool)) : bool :=
-  let '(decl, ops, exp) := c in list_eqb res_eqb (trace decl dict_branch_aliases (init decl) ops) exp.
+  let '(decl, ops, exp) := c in
+  list_eqb res_eqb (if dict_branch_aliases then trace decl true (init decl) ops
+                    else trace_f decl [97%nat; 98%nat] commit_is_atomic (init decl) ops) exp.
 """
 
 
@@ -199,6 +211,12 @@ CORPUS = [
     dict(n=3, ops=[dict(kind="pairs", items=[[2, 1], [0, 2], [1, 3]]), dict(kind="dict_sym", items=[[1, 5]]),
                    dict(kind="array", items=[7, 8, 9]), dict(kind="dict_mixed", items=[[1, 5], [0, 11]])]),
     dict(n=1, ops=[dict(kind="list", items=[5]), dict(kind="dict_str", items=[[0, 6]]), dict(kind="pairs", items=[[0, 4]])]),
+    # names the model knows as symbols but that are not parameters (t, a state): rejected, and nothing changes
+    dict(n=1, ops=[dict(kind="dict_str", items=[[UNKNOWN_T, 868]]), dict(kind="dict_mixed", items=[[0, 904]])]),
+    dict(n=5, ops=[dict(kind="pairs", items=[[4, 813], [3, 779], [1, 386], [2, 852], [0, 821]]),
+                   dict(kind="pairs", items=[[0, 83], [1, -12], [UNKNOWN_T, 858], [3, 378], [2, 12]])]),
+    dict(n=3, ops=[dict(kind="list", items=[7, 8, 9]), dict(kind="dict_sym", items=[[UNKNOWN_STATE, 5], [2, 224]]),
+                   dict(kind="dict_str", items=[[1, 349]])]),
 ]
 
 
@@ -207,7 +225,7 @@ def run(ck):
     ck.rule = ("random assignment histories (1-5 parameters, 1-%d ops, formats list/tuple/ndarray/pairs/dict by "
                "str/Symbol/mixed, partial dicts, 18%% malformed ops); non-trivial = at least 2 accepted ops of "
                "different formats; distinct by canonical JSON hash") % ck.budget(8, 14)
-    ok = ck.coq_build("C09", [("ParamsGen", gen_params.generate())])
+    ok = ck.coq_build("C09", [("ParamsGen", gen_params.generate())], extra=("Util.vo", "ParamsAtomic.vo"))
     common.name_assumptions(ck, "C09")
     rng = np.random.default_rng(ck.seed)
     N = ck.budget(400, 4000)
